@@ -66,7 +66,9 @@ def write_replay(prop, seed, n, payload):
     os.makedirs(REPLAY_DIR, exist_ok=True)
     path = os.path.join(REPLAY_DIR, f"{prop}-{seed}-{n}.json")
     with open(path, "w") as fh:
-        json.dump(payload, fh, indent=1, sort_keys=True, default=_default)
+        # key order is preserved on purpose: the insertion order of a caller-owned dictionary
+        # (e.g. a mask) is part of a recorded operation
+        json.dump(payload, fh, indent=1, sort_keys=False, default=_default)
     return path
 
 
